@@ -31,17 +31,63 @@ EXPANSIONS = [
 ]
 
 
-def _worker(blob):
-    """Runs in a pool process: unpickle forests, report what the child sees,
-    send the trees back."""
+def _worker(blobs):
+    """Runs in a pool process: unpickle forests (one blob each, so that a
+    failing tree costs only itself), report what the child sees, send the
+    trees back."""
     from ddsmt import nodes
     out = []
-    for fr in pickle.loads(blob):
-        d = F.dfs_nodes(fr)
-        out.append(([n.id for n in d], [n.hash for n in d],
-                    F.nested_of_nodes(fr), fr,
-                    [x.id for x in nodes.dfs(fr)]))
-    return pickle.dumps(out)
+    for blob in blobs:
+        try:
+            fr = pickle.loads(blob)
+            d = F.dfs_nodes(fr)
+            one = ([n.id for n in d], [n.hash for n in d],
+                   F.nested_of_nodes(fr), fr, [x.id for x in nodes.dfs(fr)])
+            out.append(pickle.dumps(one))
+        except Exception as e:  # noqa: reported by the parent
+            out.append(pickle.dumps(('ERROR', repr(e))))
+    return out
+
+
+def _alloc_worker(args):
+    """Runs in a pool process: wait at the barrier, then build `k` nodes as
+    fast as possible; returns the ids in allocation order."""
+    barrier, k, tag = args
+    from ddsmt.nodes import Node
+    barrier.wait(timeout=60)
+    return [Node(f'{tag}n{i}').id for i in range(k)]
+
+
+def id_histories(rep, tier):
+    """Concurrent node construction in fork-based processes (what the pool
+    workers of both strategies do in apply_simp): the histories of ids are
+    judged by TLC against IdCounter.tla (Conform.tla, kind idhist)."""
+    import conform
+    ctx = multiprocessing.get_context('fork')
+    nproc, k, rounds = (8, 4000, 6) if tier == 'quick' else (12, 8000, 25)
+    cases = []
+    with ctx.Manager() as mgr:
+        pool = ctx.Pool(nproc)
+        for r in range(rounds):
+            barrier = mgr.Barrier(nproc)
+            hs = pool.map(_alloc_worker,
+                          [(barrier, k, f'r{r}w{w}') for w in range(nproc)],
+                          chunksize=1)
+            rep.count()
+            dup = sum(len(h) for h in hs) - len(set(x for h in hs for x in h))
+            cases.append(({'cid': len(cases), 'kind': 'idhist', 'h': hs},
+                          dup))
+        pool.close()
+        pool.join()
+    fails = conform.judge(rep, [c for c, _ in cases], 'c12-ids')
+    for cid, clause in fails.items():
+        rep.violation(
+            'duplicate-node-ids-across-processes',
+            f'{cases[cid][1]} node ids were handed out twice to '
+            f'concurrently constructing processes (TLC: the history is not '
+            f'a behaviour of IdCounter.tla)', {'round': cid})
+    rep.nontrivial('idhist')
+    return len(cases)
 
 
 def has_singleton_str(t):
@@ -179,8 +225,13 @@ def main():
 
     def flush():
         if batch:
-            blob = pickle.dumps([b[0] for b in batch])
-            pending.append((list(batch), pool.apply_async(_worker, (blob, ))))
+            blobs = []
+            for b in batch:
+                try:
+                    blobs.append(pickle.dumps(b[0]))
+                except Exception as e:  # noqa: reported in-process already
+                    blobs.append(pickle.dumps([]))
+            pending.append((list(batch), pool.apply_async(_worker, (blobs, ))))
             batch.clear()
 
     for cfg, tmo in CONFIGS[a.tier]:
@@ -220,14 +271,24 @@ def main():
     # cross-process observations
     nx = 0
     for items, fut in pending:
-        res = pickle.loads(fut.get(timeout=600))
-        for (fr, recs, obs, ei), (cids, chashes, cnested, cback,
-                                  cdfs) in zip(items, res):
+        res = fut.get(timeout=600)
+        for (fr, recs, obs, ei), blob in zip(items, res):
             nx += 1
             d = F.dfs_nodes(fr)
             sig = (f'forest={json.dumps(F.nested_of_recs(recs))}'
                    f':ids={list(obs["dfs"])}:exp={ei}')
             rp = {'forest': recs, 'obs': obs, 'expansion': ei}
+            try:
+                one = pickle.loads(blob)
+            except Exception as e:  # noqa
+                one = ('ERROR', 'tree sent back cannot be unpickled: ' +
+                       repr(e))
+            if one[0] == 'ERROR':
+                rep.violation('xproc-pickle:' + sig,
+                              'sending the tree to a worker and back '
+                              'raised ' + one[1], rp)
+                continue
+            cids, chashes, cnested, cback, cdfs = one
             if cids != [x.id for x in d]:
                 rep.violation('xproc-ids:' + sig,
                               f'worker sees ids {cids}, parent '
@@ -247,6 +308,7 @@ def main():
                               'tree sent back by the worker differs', rp)
     pool.close()
     pool.join()
+    rep.cov['id_histories'] = id_histories(rep, a.tier)
     rep.cov['traces_validated_against_impl'] = n
     rep.cov['cross_process_cases'] = nx
     rep.cov['exhaustive'] = True
